@@ -126,6 +126,11 @@ def handle (args : List String) (impl : String) : R Ans :=
       let bs := txt.toList.map Char.toNat
       let show' := fun (l : List (St c)) => if l.isEmpty then "-" else ",".intercalate (l.map (showK c))
       pure { model := show' (kmersFromAscii c bs), verdict := ← vList c impl (KSpec.windows c.K (bs.map KSpec.asciiToBase)) }
+    | "hd1", [x] => do
+      -- `KmerOneHammingIter`: all k-mers at Hamming distance 1, in iteration order
+      let s ← st x
+      let show' := fun (l : List (St c)) => if l.isEmpty then "-" else ",".intercalate (l.map (showK c))
+      pure { model := show' (hd1 c s), verdict := ← vList c impl (KSpec.hd1 (toSeq c s)) }
     | _, _ => throw "bad-op"
   | _ => throw "bad-request"
 
